@@ -48,7 +48,14 @@ Ltac unclip_dot :=
   | |- context [Rmin (Rmax (Rabs ?x) (-1)) 1] =>
       rewrite (clip_id (Rabs x)) by (split; [pose proof (Rabs_pos x); lra | apply cs4; apply normed_le1])
   end.
-Ltac twin_shortcut := cbv zeta; unclip_dot; repeat (head_dec; try (right; reflexivity)); left; same_val.
+(* Shape-directed: split on whatever decision is outermost on either side until both sides are leaves.  A leaf pair is then
+   (i) the scalar shortcut `Val [0]` (right disjunct), (ii) syntactically / ring-equal values, or (iii) the two sides computed the
+   same minimum with differently phrased comparisons (`if a < b then a else b` vs `if b <= a then b else a`, Python `min` vs a NumPy
+   reduction): then the collected order facts either make the two leaves equal or are contradictory — both closed by lra with the
+   norms as atoms.  Nothing depends on the number or the order of the decisions. *)
+Ltac clear_gates := repeat match goal with H : context [Rabs _] |- _ => clear H end.
+Ltac leaf_eq := first [ same_val | clear_gates; pose_sqrt_pos; val_eq; lra ].
+Ltac twin_shortcut := cbv zeta; unclip_dot; repeat (head_dec; try (right; reflexivity)); left; leaf_eq.
 
 Lemma qdist_twin_partial a b c d w x y z :
   C07_qdist_b1_R a b c d w x y z = C07_qdist_s_R a b c d w x y z \/ C07_qdist_s_R a b c d w x y z = Val [0].
@@ -88,7 +95,7 @@ Ltac unclip_qad :=
   end.
 Lemma qad_twin_partial a b c d w x y z :
   C07_qad_b1_R a b c d w x y z = C07_qad_s_R a b c d w x y z \/ C07_qad_s_R a b c d w x y z = Val [0].
-Proof. unfold C07_qad_b1_R, C07_qad_s_R. cbv zeta. unclip_qad. repeat (head_dec; try (right; reflexivity)); left; same_val. Qed.
+Proof. unfold C07_qad_b1_R, C07_qad_s_R. cbv zeta. unclip_qad. repeat (head_dec; try (right; reflexivity)); left; leaf_eq. Qed.
 
 (* rmse_matrices: sqrt(mean over 9) vs sqrt(mean of row means) *)
 Lemma rmse_matrices_twin r00 r01 r02 r10 r11 r12 r20 r21 r22 s00 s01 s02 s10 s11 s12 s20 s21 s22 :
